@@ -180,7 +180,7 @@ func drawC11Spec(t *rapid.T, label string, interop bool) c11Spec {
 func TestC11(t *testing.T) {
 	rec := ev.Get("C11")
 	rec.Rule("ConfigSpecs: id 0..255, KEM ids, public keys of 0..200 bytes (valid X25519 points for interop cases), 0..8 cipher suites incl. unknown ids, public names of 1..255 bytes (and invalid lengths 0, 256..300), lists of 0..6 configs. Oracles: harness decoder written from draft section 4 reads Bytes() and agrees field by field; Spec()/ParseConfigList return the generated specs in order; harness-encoded configs parse to the same fields (both directions); crypto/tls client+server accept interop configs (outer SNI = public name, config id named, ECHAccepted on both sides); every strict prefix of a valid list is rejected; trailing bytes beyond declared lengths do not change the result; length fields +-1 never panic. distinct = encoding hash; non-trivial = name length not in {11,18} or id != 1 or non-default suites")
-	rec.Mandatory("name_len1", "name_len239", "name_len240", "name_len255", "list0", "list_ge3", "interop", "single_suite_aead1", "single_suite_aead2", "single_suite_aead3", "invalid_name_len", "prefix_rejected", "newconfig")
+	rec.Mandatory("suites_cut_mid_suite", "name_len1", "name_len239", "name_len240", "name_len255", "list0", "list_ge3", "interop", "single_suite_aead1", "single_suite_aead2", "single_suite_aead3", "invalid_name_len", "prefix_rejected", "newconfig")
 	rapid.Check(t, func(t *rapid.T) {
 		interop := rapid.IntRange(0, 9).Draw(t, "interop") == 0
 		n := rapid.IntRange(0, 6).Draw(t, "nconfigs")
@@ -322,6 +322,33 @@ func TestC11(t *testing.T) {
 			if e := guard(func() error { _, e := ech.Config(m[2:]).Spec(); return e }); isPanic(e) {
 				ev.Violation(t, "C11", map[string]any{"bytes": hx(m[2:])}, "Spec panicked: %v", e)
 			}
+		}
+		// a cipher_suites vector cut in the middle of a suite (all enclosing lengths consistent)
+		if rapid.IntRange(0, 3).Draw(t, "odd_suites") == 0 {
+			k := drawKey(t, "oddk", -1, "odd.example")
+			good := k.Config
+			// locate the suites vector: version(2) len(2) id(1) kem(2) pklen(2) pk(32) suiteslen(2)
+			off := 2 + 2 + 1 + 2 + 2 + 32
+			sl := int(good[off])<<8 | int(good[off+1])
+			cut := 1 + rapid.IntRange(0, 2).Draw(t, "odd_cut") // drop 1..3 bytes of the last suite
+			bad := append([]byte{}, good[:off+2+sl-cut]...)
+			bad = append(bad, good[off+2+sl:]...)
+			bad[off], bad[off+1] = byte((sl-cut)>>8), byte(sl-cut)
+			total := len(bad) - 4
+			bad[2], bad[3] = byte(total>>8), byte(total)
+			if _, perr := hello.ParseConfig(bad); perr == nil {
+				t.Fatalf("harness: strict decoder accepts a suite vector of %d bytes", sl-cut)
+			}
+			e := guard(func() error { _, e := ech.Config(bad).Spec(); return e })
+			if e == nil || isPanic(e) {
+				ev.Violation(t, "C11", map[string]any{"bytes": hx(bad)}, "Spec() accepted a config whose cipher_suites vector is %d bytes long (cut inside a suite) (err=%v)", sl-cut, e)
+			}
+			lst := append([]byte{byte(len(bad) >> 8), byte(len(bad))}, bad...)
+			e = guard(func() error { _, e := ech.ParseConfigList(lst); return e })
+			if e == nil || isPanic(e) {
+				ev.Violation(t, "C11", map[string]any{"bytes": hx(lst)}, "ParseConfigList accepted a config whose cipher_suites vector is cut inside a suite (err=%v)", e)
+			}
+			cl = append(cl, "suites_cut_mid_suite")
 		}
 		// invalid name lengths must be refused by the encoder
 		if rapid.IntRange(0, 4).Draw(t, "invalid") == 0 {
